@@ -75,10 +75,6 @@ Qed.
 (* ---- detection: error patterns on byte strings ---- *)
 Local Open Scope N_scope.
 
-(* the corrupted frame: byte-wise xor with the error pattern *)
-Fixpoint xor_bytes (a b : list N) : list N :=
-  match a, b with x :: a, y :: b => N.lxor x y :: xor_bytes a b | _, _ => [] end.
-
 Lemma bits8_lxor a b : bits8 (N.lxor a b) = xorl (bits8 a) (bits8 b).
 Proof. unfold bits8. cbn. now rewrite !N.lxor_spec. Qed.
 Lemma bits8_length a : length (bits8 a) = 8%nat. Proof. reflexivity. Qed.
@@ -180,13 +176,6 @@ Qed.
 
 (* the three error classes, as patterns over the bits of the whole frame in wire order
    (byte by byte, least significant bit first; the CRC trailer low byte first) *)
-Definition err_class (bs : list bool) : Prop :=
-  (exists a z, bs = zeros a ++ [true] ++ zeros z) \/
-  (exists a d z, (1 <= d <= 2100)%nat /\ bs = zeros a ++ [true] ++ zeros (d - 1) ++ [true] ++ zeros z) \/
-  (exists a x z, x < 65536 /\ x <> 0 /\ bs = zeros a ++ bits16 x ++ zeros z) \/
-  (* a burst: every flipped bit lies in a span w of at most 16 bits (the frame itself has at least 16 bits) *)
-  (exists a w z, (length w <= 16)%nat /\ w <> zeros (length w) /\ (16 <= length bs)%nat /\ bs = zeros a ++ w ++ zeros z).
-
 Lemma err_class_syn bs : err_class bs -> syn bs <> 0.
 Proof.
   intros [(a & z & ->)|[(a & d & z & Hd & ->)|[(a & x & z & Hx & Hn & ->)|(a & w & z & Hw & Hnz & Hl & ->)]]].
@@ -317,17 +306,6 @@ Proof.
 Qed.
 
 (* ---- a delimited frame whose CRC does not verify: CrcValidationFailure, nothing delivered ---- *)
-Definition delimited (r : role) (pdu : list N) : Prop :=
-  match pdu with
-  | [] => False
-  | fcv :: _ =>
-      match length_rule r fcv with
-      | LFixed n => length pdu = 1 + n
-      | LCount off => 1 + off <= length pdu /\ length pdu = 1 + off + N.to_nat (nth off pdu 0%N)
-      | LUnknown => False
-      end
-  end.
-
 Lemma body_at_frame k fi addr pdu lo hi rest : length pdu <= 253 ->
   ref_rtu_body k fi addr (length pdu) (pdu ++ [lo; hi] ++ rest) =
   if N.eqb (lo + 256 * hi) (crc (addr :: pdu))
